@@ -17,7 +17,7 @@ PROP = dict(
                            "monitor:cut-fraction": 200000, "monitor:trim-fraction": 200000, "monitor:coverage-points": 1000000,
                            "monitor:crossings-complete": 200000, "state:part-at-limit-65535": 1000, "run:cases": 1000,
                            "exhaustive:instances": 5 * 97655, "data:non-finite": 500}),
-              dict(name="c18_cxx", src=["c18_cxx.cpp", "c18_oracle.c"], libs=["mpt++", "mptio", "mptplot", "mptcore"], batch=512,
+              dict(name="c18_cxx", memcheck=500, src=["c18_cxx.cpp", "c18_oracle.c"], libs=["mpt++", "mptio", "mptplot", "mptcore"], batch=512,
                    cflags=["-fno-sanitize=vptr"],
                    floors={"linepart::array::apply": 50000, "linepart::array::set": 10000, "transform::part": 100000,
                            "monitor:cut-fraction": 20000, "monitor:two-dimension-lists": 10000,
